@@ -332,6 +332,9 @@ impl Check for C03 {
     fn sample(&self, scn: &Value) -> Value {
         abbreviate(scn)
     }
+    fn risky(&self, scn: &Value) -> bool {
+        scenario_is_risky(scn)
+    }
     fn expected_probes(&self) -> Vec<&'static str> {
         vec!["refill", "growth", "leading_blank_exceeds_capacity"]
     }
@@ -568,6 +571,9 @@ impl Check for C14 {
         let mut v = scn.clone();
         v["base"] = abbreviate(&scn["base"]);
         v
+    }
+    fn risky(&self, scn: &Value) -> bool {
+        scenario_is_risky(scn)
     }
     fn expected_probes(&self) -> Vec<&'static str> {
         vec!["refill", "growth", "seek_real"]
@@ -951,6 +957,9 @@ impl Check for C09 {
             v["read"] = abbreviate(&scn["read"]);
         }
         v
+    }
+    fn risky(&self, scn: &Value) -> bool {
+        scenario_is_risky(scn)
     }
     fn expected_probes(&self) -> Vec<&'static str> {
         vec!["refill", "growth", "growth_refused", "necessity_checked"]
